@@ -152,11 +152,13 @@ fn arc_labels(ls: &[(String, String)]) -> Vec<Label> {
 /// each string static, owned or Arc-shared by position
 fn mixed_labels(ls: &[(String, String)], salt: usize) -> Vec<Label> {
     let mk = |s: &str, i: usize| -> SharedString {
-        match i % 4 {
+        match i % 6 {
             0 => SharedString::from_owned(s.to_string()),
             1 => SharedString::const_str(leak_str(s)),
             2 => SharedString::from_shared(Arc::<str>::from(s)),
-            _ => SharedString::from(std::borrow::Cow::Owned::<'static, str>(s.to_string())),
+            3 => SharedString::from(std::borrow::Cow::Owned::<'static, str>(s.to_string())),
+            4 => SharedString::from(std::borrow::Cow::Borrowed::<'static>(leak_str(s))),
+            _ => if s.is_empty() { SharedString::default() } else { SharedString::from(leak_str(s)) },
         }
     };
     ls.iter().enumerate().map(|(i, (k, v))| Label::new(mk(k, i + salt), mk(v, i + salt + 1))).collect()
@@ -191,7 +193,13 @@ fn variants(c: &Content, r: &mut Rng, arena: &Arena) -> Vec<(&'static str, Key)>
     v.push(("from_parts(String,owned)", Key::from_parts(name.clone(), owned_labels(ls))));
     v.push(("from_parts(&'static,static-labels-vec)", Key::from_parts(leak_str(name), static_labels(ls).to_vec())));
     v.push(("from_parts(Arc,arc)", Key::from_parts(Arc::<str>::from(name.as_str()), arc_labels(ls))));
-    v.push(("from_parts(KeyName,mixed)", Key::from_parts(KeyName::from(name.clone()), mixed_labels(ls, r.below(4)))));
+    v.push(("from_parts(KeyName,mixed)", Key::from_parts(KeyName::from(name.clone()), mixed_labels(ls, r.below(6)))));
+    v.push(("from_parts(std Cow::Borrowed,mixed)", Key::from_parts(std::borrow::Cow::Borrowed::<'static>(leak_str(name)), mixed_labels(ls, 4))));
+    v.push(("from_parts(std Cow::Owned,mixed)", Key::from_parts(std::borrow::Cow::Owned::<'static, str>(name.clone()), mixed_labels(ls, 5))));
+    if name.is_empty() {
+        v.push(("from_parts(SharedString::default())", Key::from_parts(SharedString::default(), mixed_labels(ls, 3))));
+        v.push(("from_static_labels(KeyName::from(SharedString::default()))", Key::from_static_labels(KeyName::from(SharedString::default()), static_labels(ls))));
+    }
     v.push(("from_static_parts", Key::from_static_parts(leak_str(name), static_labels(ls))));
     v.push(("from_static_labels(String)", Key::from_static_labels(name.clone(), static_labels(ls))));
     v.push(("from_static_labels(Arc)", Key::from_static_labels(Arc::<str>::from(name.as_str()), static_labels(ls))));
@@ -287,6 +295,12 @@ fn show(c: &Content) -> String {
 fn key_tok(c: &Content) -> String {
     format!("{} {}", hexs(&c.0), pairs(&c.1))
 }
+fn content_of(k: &Key) -> Content {
+    (k.name().to_string(), k.labels().map(|l| (l.key().to_string(), l.value().to_string())).collect())
+}
+fn bit(b: bool) -> &'static str {
+    if b { "1" } else { "0" }
+}
 fn names_distinct(c: &Content) -> bool {
     let mut ks: Vec<&String> = c.1.iter().map(|(k, _)| k).collect();
     ks.sort();
@@ -301,7 +315,7 @@ fn is_perm(a: &Content, b: &Content) -> bool {
 
 /// construction paths whose memo is empty until the first get_hash()
 fn is_lazy_path(p: &str) -> bool {
-    p.starts_with("from_static_parts") || p.starts_with("from_static_labels(S") || p.starts_with("from_static_labels(A") || p == "from_static_name"
+    p.starts_with("from_static_parts") || p.starts_with("from_static_labels(S") || p.starts_with("from_static_labels(A") || p.starts_with("from_static_labels(K") || p == "from_static_name"
         || p == "clone(static,unhashed)" || p == "macro literal (static)" || p == "macro literal name"
 }
 /// a brand-new key that nobody has hashed yet
@@ -396,6 +410,70 @@ fn parts_laws(contents: &[Content], r: &mut Rng, out: &mut Out) {
             out.oracle_fail("Hash for KeyName / SharedString differs from Hash for str (Borrow<str> would be unlawful)", &format!("{:?}", a));
         }
         out.count_n("string pairs compared", 1);
+    }
+}
+
+/// a key obtained through a random sequence of derivations (`clone`, a `get_hash()` call, `into_parts` round trip,
+/// `with_extra_labels` with and without labels) from an eagerly or a lazily hashed start; the model (`Path.build`)
+/// answers the content, both memo fields and `get_hash()`
+fn path_case(c: &Content, contents: &[Content], r: &mut Rng, out: &mut Out) {
+    let lazy = r.chance(1, 2);
+    let mut k = if lazy { fresh_lazy(c, r.below(3)) } else { Key::from_parts(c.0.clone(), mixed_labels(&c.1, r.below(6))) };
+    let mut line = format!("key path {} {}", if lazy { "S" } else { "P" }, key_tok(c));
+    let mut content = c.clone();
+    let mut steps = String::new();
+    for _ in 0..r.range(0, 5) {
+        match r.below(6) {
+            0 => {
+                k = k.clone();
+                line.push_str(" c");
+                steps.push_str(".clone()");
+            }
+            1 => {
+                let _ = k.get_hash();
+                line.push_str(" h");
+                steps.push_str(";get_hash()");
+            }
+            2 => {
+                let (n, l) = k.into_parts();
+                k = Key::from_parts(n, l);
+                line.push_str(" r");
+                steps.push_str(".into_parts()->from_parts");
+            }
+            3 => {
+                k = k.with_extra_labels(vec![]);
+                line.push_str(" x .");
+                steps.push_str(".with_extra_labels([])");
+            }
+            _ => {
+                // extra labels taken from the contents of the case (so repeated names and repeated labels arise)
+                let mut extra: Vec<(String, String)> = Vec::new();
+                for _ in 0..r.range(1, 3) {
+                    let src = &contents[r.below(contents.len())].1;
+                    extra.push(if src.is_empty() { ("x".to_string(), "".to_string()) } else { src[r.below(src.len())].clone() });
+                }
+                k = k.with_extra_labels(mixed_labels(&extra, r.below(6)));
+                line.push_str(&format!(" x {}", pairs(&extra)));
+                steps.push_str(&format!(".with_extra_labels({:?})", extra));
+                content.1.extend(extra);
+            }
+        }
+    }
+    let reference = Key::from_parts(content.0.clone(), owned_labels(&content.1));
+    let memo = memo_of(&k);
+    let got = content_of(&k);
+    let gh = k.get_hash();
+    let memo_s = match memo {
+        None => "unreadable unreadable".to_string(),
+        Some((f, v)) => format!("{} {}", bit(f), if v == reference.get_hash() { "ok" } else if v == 0 { "zero" } else { "bad" }),
+    };
+    out.op(&line, &format!("{} {} {}", key_tok(&got), memo_s, if gh == reference.get_hash() { "ok" } else { "bad" }));
+    out.count_n("construction paths replayed in the model", 1);
+    if got != content || gh != reference.get_hash() || k != reference || k.cmp(&reference) != Ordering::Equal || std_stream(&k) != std_stream(&reference)
+        || matches!(memo, Some((true, v)) if v != gh)
+    {
+        out.oracle_fail("construction path: derived key differs from a key built directly from the same content",
+            &format!("{} {}{} : content {}, memo {:?}, get_hash {:#x}; directly built: {} get_hash {:#x}", if lazy { "static" } else { "built" }, show(c), steps, show(&got), memo, gh, show(&content), reference.get_hash()));
     }
 }
 
@@ -498,10 +576,12 @@ fn examine(contents: &[Content], extra: Vec<(usize, &'static str, Key)>, r: &mut
     // ---- all ordered pairs (a random construction path on each side)
     let mut eqm = vec![vec![false; m]; m];
     let mut cmpm = vec![vec![Ordering::Equal; m]; m];
+    let mut picked: Vec<(usize, usize, usize, usize, bool, Ordering, u64, u64)> = Vec::new();
     for i in 0..m {
         for j in 0..m {
-            let a = &vars[i][r.below(vars[i].len())];
-            let b = &vars[j][r.below(vars[j].len())];
+            let (ai, bi) = (r.below(vars[i].len()), r.below(vars[j].len()));
+            let a = &vars[i][ai];
+            let b = &vars[j][bi];
             let (ka, kb) = (&a.1, &b.1);
             let e = ka == kb;
             let c = ka.cmp(kb);
@@ -519,6 +599,28 @@ fn examine(contents: &[Content], extra: Vec<(usize, &'static str, Key)>, r: &mut
             if ka.partial_cmp(kb) != Some(c) || (ka < kb) != (c == Ordering::Less) {
                 out.oracle_fail("partial_cmp differs from cmp", &pair);
             }
+            // every operator and provided method of PartialEq / PartialOrd / Ord (an impl may override any of them)
+            let ops = (ka != kb, ka < kb, ka <= kb, ka > kb, ka >= kb, ka.partial_cmp(kb));
+            out.op(&format!("key ops {}", toks), &format!("{} {} {} {} {} {}", bit(ops.0), bit(ops.1), bit(ops.2), bit(ops.3), bit(ops.4), ops.5.map_or("none", ord_str)));
+            if ops != (!e, c == Ordering::Less, c != Ordering::Greater, c == Ordering::Greater, c != Ordering::Less, Some(c)) {
+                out.oracle_fail("operators disagree with == / cmp: (!=, <, <=, >, >=, partial_cmp)",
+                    &format!("{} : a==b is {}, a.cmp(b) is {:?}, but (a!=b, a<b, a<=b, a>b, a>=b, partial_cmp) = {:?}", pair, e, c, ops));
+            }
+            {
+                let (mx, mn) = (ka.clone().max(kb.clone()), ka.clone().min(kb.clone()));
+                out.op(&format!("key sel {}", toks), &format!("{} {}", key_tok(&content_of(&mx)), key_tok(&content_of(&mn))));
+                let (wmx, wmn) = if c == Ordering::Greater { (i, j) } else { (j, i) };
+                let rmx: &Key = std::cmp::max(ka, kb);
+                let rmn: &Key = std::cmp::min(ka, kb);
+                if content_of(&mx) != contents[wmx] || content_of(&mn) != contents[wmn] || mx.cmp(&mn) == Ordering::Less || mx < mn
+                    || mx.get_hash() != [ka, kb][(wmx == j) as usize].get_hash() || mn.get_hash() != [ka, kb][(wmn == j) as usize].get_hash()
+                    || !std::ptr::eq(rmx, if c == Ordering::Greater { ka } else { kb }) || !std::ptr::eq(rmn, if c == Ordering::Greater { kb } else { ka })
+                {
+                    out.oracle_fail("max/min do not select by cmp",
+                        &format!("{} : a.cmp(b) is {:?}, a.max(b) = {}, a.min(b) = {}", pair, c, show(&content_of(&mx)), show(&content_of(&mn))));
+                }
+            }
+            picked.push((i, ai, j, bi, e, c, ka.get_hash(), kb.get_hash()));
             if e {
                 if std_stream(ka) != std_stream(kb) {
                     out.oracle_fail("equal keys, different std Hash call sequence", &format!("{} : {} vs {}", pair, std_stream(ka), std_stream(kb)));
@@ -535,15 +637,15 @@ fn examine(contents: &[Content], extra: Vec<(usize, &'static str, Key)>, r: &mut
             {
                 let fa = fresh_lazy(&contents[i], r.below(3));
                 let fb = fresh_lazy(&contents[j], r.below(3));
-                let before = (fa == fb, fa.cmp(&fb), fa == *kb, fa.cmp(kb), *ka == fb, ka.cmp(&fb), fa.partial_cmp(&fb));
+                let before = (fa == fb, fa.cmp(&fb), fa == *kb, fa.cmp(kb), *ka == fb, ka.cmp(&fb), fa.partial_cmp(&fb), fa != fb, fa <= fb, *ka > fb);
                 let _ = fa.get_hash();
-                let half = (fa == fb, fa.cmp(&fb), fa == *kb, fa.cmp(kb), *ka == fb, ka.cmp(&fb), fa.partial_cmp(&fb));
+                let half = (fa == fb, fa.cmp(&fb), fa == *kb, fa.cmp(kb), *ka == fb, ka.cmp(&fb), fa.partial_cmp(&fb), fa != fb, fa <= fb, *ka > fb);
                 let _ = fb.get_hash();
-                let after = (fa == fb, fa.cmp(&fb), fa == *kb, fa.cmp(kb), *ka == fb, ka.cmp(&fb), fa.partial_cmp(&fb));
-                let want = (e, c, e, c, e, c, Some(c));
+                let after = (fa == fb, fa.cmp(&fb), fa == *kb, fa.cmp(kb), *ka == fb, ka.cmp(&fb), fa.partial_cmp(&fb), fa != fb, fa <= fb, *ka > fb);
+                let want = (e, c, e, c, e, c, Some(c), !e, c != Ordering::Greater, c == Ordering::Greater);
                 if before != want || half != want || after != want {
                     out.oracle_fail("==/cmp of a lazily hashed key depends on whether get_hash() has been called",
-                        &format!("{} : hashed keys say == {}, cmp {:?}; never-hashed keys (a==b, a.cmp(b), a==B, a.cmp(B), A==b, A.cmp(b), partial_cmp): before {:?}, after a.get_hash() {:?}, after both {:?}", pair, e, c, before, half, after));
+                        &format!("{} : hashed keys say == {}, cmp {:?}; never-hashed keys (a==b, a.cmp(b), a==B, a.cmp(B), A==b, A.cmp(b), partial_cmp, a!=b, a<=b, A>b): before {:?}, after a.get_hash() {:?}, after both {:?}", pair, e, c, before, half, after));
                 }
                 if e && fa.get_hash() != fb.get_hash() {
                     out.oracle_fail("equal keys, different get_hash()", &format!("{} (freshly built static keys)", pair));
@@ -589,6 +691,86 @@ fn examine(contents: &[Content], extra: Vec<(usize, &'static str, Key)>, r: &mut
                 }
             }
         }
+    }
+    // ---- construction path x construction path.  Same content: EVERY ordered pair of paths (not only "against path 0");
+    // different contents: every path of the one against a rotating path of the other, verdicts as in the matrix above
+    for ci in 0..m {
+        let vs = &vars[ci];
+        for (pa, ka) in vs.iter() {
+            for (pb, kb) in vs.iter() {
+                if !(ka == kb) || ka != kb || ka.cmp(kb) != Ordering::Equal || ka < kb || ka > kb || !(ka <= kb) {
+                    out.oracle_fail("construction-path pair: same content, not ==/Equal",
+                        &format!("`{}` vs `{}` for {}: == {}, != {}, cmp {:?}, < {}, > {}, <= {}", pa, pb, show(&contents[ci]), ka == kb, ka != kb, ka.cmp(kb), ka < kb, ka > kb, ka <= kb));
+                }
+            }
+        }
+        out.count_n("path pairs compared (same content, exhaustive)", (vs.len() * vs.len()) as u64);
+    }
+    for i in 0..m {
+        for j in 0..m {
+            if i == j {
+                continue;
+            }
+            let off = r.below(vars[j].len());
+            for (x, (pa, ka)) in vars[i].iter().enumerate() {
+                let (pb, kb) = &vars[j][(x + off) % vars[j].len()];
+                let got = (ka == kb, ka != kb, ka.cmp(kb), ka < kb, ka >= kb);
+                let (e, c) = (eqm[i][j], cmpm[i][j]);
+                if got != (e, !e, c, c == Ordering::Less, c != Ordering::Less) {
+                    out.oracle_fail("construction-path pair: the verdict depends on the paths",
+                        &format!("a={} [{}]  b={} [{}] : (==, !=, cmp, <, >=) = {:?}, other paths of the same contents gave == {}, cmp {:?}", show(&contents[i]), pa, show(&contents[j]), pb, got, e, c));
+                }
+                out.count_n("path pairs compared (different contents)", 1);
+            }
+        }
+    }
+    // ---- "on every thread": two other threads re-evaluate ==, cmp, the operators, the Hash call sequence and get_hash()
+    // of the very same key objects at the same time; the verdicts are those of the main thread
+    {
+        let (varsr, pickedr, streamsr) = (&vars, &picked, &streams);
+        let bad: Vec<String> = std::thread::scope(|sc| {
+            let hs: Vec<_> = (0..2)
+                .map(|w| {
+                    sc.spawn(move || {
+                        let mut bad = Vec::new();
+                        for &(i, ai, j, bi, e, c, ga, gb) in pickedr.iter() {
+                            let (ka, kb) = (&varsr[i][ai].1, &varsr[j][bi].1);
+                            let got = (ka == kb, ka != kb, ka.cmp(kb), ka.partial_cmp(kb), ka <= kb, ka.get_hash(), kb.get_hash(), ka.clone().get_hash());
+                            if got != (e, !e, c, Some(c), c != Ordering::Greater, ga, gb, ga) || std_stream(ka) != streamsr[i] || std_stream(kb) != streamsr[j] {
+                                bad.push(format!("thread {}: contents {} / {} paths `{}` / `{}`: (==, !=, cmp, partial_cmp, <=, get_hash a, get_hash b, clone get_hash) = {:?}; main thread: == {}, cmp {:?}, get_hash {:#x} / {:#x}",
+                                    w, i, j, varsr[i][ai].0, varsr[j][bi].0, got, e, c, ga, gb));
+                            }
+                        }
+                        bad
+                    })
+                })
+                .collect();
+            hs.into_iter().flat_map(|h| h.join().unwrap()).collect()
+        });
+        for b in bad {
+            out.oracle_fail("another thread gets a different ==/cmp/Hash/get_hash for the same keys", &b);
+        }
+        out.count_n("pairs re-evaluated on two other threads", picked.len() as u64);
+    }
+    // ---- clamp on a few triples with lo <= hi
+    for _ in 0..8 {
+        let (x, lo, hi) = (r.below(m), r.below(m), r.below(m));
+        if cmpm[lo][hi] == Ordering::Greater {
+            continue;
+        }
+        let k = |i: usize, r: &mut Rng| vars[i][r.below(vars[i].len())].1.clone();
+        let got = k(x, r).clamp(k(lo, r), k(hi, r));
+        out.op(&format!("key clamp {} {} {}", key_tok(&contents[x]), key_tok(&contents[lo]), key_tok(&contents[hi])), &key_tok(&content_of(&got)));
+        let want = if cmpm[x][lo] == Ordering::Less { lo } else if cmpm[x][hi] == Ordering::Greater { hi } else { x };
+        if content_of(&got) != contents[want] {
+            out.oracle_fail("clamp does not select by cmp", &format!("x={} lo={} hi={} : got {}", show(&contents[x]), show(&contents[lo]), show(&contents[hi]), show(&content_of(&got))));
+        }
+        out.count_n("clamp calls", 1);
+    }
+    // ---- construction paths as sequences of derivations, against the model's `Path.build`
+    for _ in 0..2 {
+        let ci = r.below(m);
+        path_case(&contents[ci], contents, r, out);
     }
     for i in 0..m {
         if !eqm[i][i] {
@@ -971,7 +1153,7 @@ const KNAMES: &[&str] = &["n", "", "m", "名前", "n\u{0}", "nn", "http_requests
 const DISTINCT: &[&str] = &["k0", "k1", "k2", "", "é", "k10", "a", "ab", "b", "日本", "K0", "z"];
 
 fn gen_contents(r: &mut Rng, out: &mut Out) -> Vec<Content> {
-    let n = match r.weighted(&[1, 2, 6, 4, 5, 2, 2, 2]) {
+    let mut n = match r.weighted(&[1, 2, 6, 4, 5, 2, 2, 2]) {
         0 => 0,
         1 => 1,
         2 => 2,
@@ -982,8 +1164,11 @@ fn gen_contents(r: &mut Rng, out: &mut Out) -> Vec<Content> {
         // long label lists: library sorts switch algorithms with the length (e.g. at 20 elements)
         _ => r.range(11, 45),
     };
-    if n > 10 {
-        out.count("labels: more than 10");
+    // now and then far beyond any inline-map / small-index size: around 64, 128, 256 (where a `u8`/`i8` index or a fixed
+    // array would give out) and a few hundred
+    if r.chance(1, 40) {
+        n = *r.pick(&[63usize, 64, 65, 127, 128, 129, 200, 255, 256, 257, 300]);
+        out.count("labels: 63-300");
     }
     let distinct_mode = r.chance(1, 3);
     out.count(if distinct_mode { "mode: distinct label names" } else { "mode: names from a pool of 3" });
@@ -993,8 +1178,23 @@ fn gen_contents(r: &mut Rng, out: &mut Out) -> Vec<Content> {
     // small-string special cases would go wrong
     let stretch: Option<(usize, bool, bool)> =
         if r.chance(1, 3) { Some((*r.pick(&[7usize, 8, 9, 15, 16, 17, 23, 24, 25, 31, 32, 33, 40, 64]), r.chance(1, 2), r.chance(1, 4))) } else { None };
+    // one case in twelve of the others: very long strings (127 … 1100 bytes) that differ only in their last (first) few
+    // bytes — chunked or length-limited comparison / hashing of `Cow<str>` / `Label` would show from a size upwards
+    let stretch = match stretch {
+        None if r.chance(1, 8) => Some((*r.pick(&[127usize, 128, 129, 255, 256, 257, 511, 512, 1024, 1100]), r.chance(1, 2), r.chance(1, 4))),
+        x => x,
+    };
+    if let Some((p, _, _)) = stretch {
+        if p >= 100 {
+            n = n.min(if p >= 1000 { 4 } else { 8 });
+            out.count("strings: common part of 127-1100 bytes");
+        }
+    }
+    if n > 10 {
+        out.count("labels: more than 10");
+    }
     if let Some((p, pad, suffix)) = stretch {
-        out.count(&format!("strings: common {} of {} bytes{}", if suffix { "suffix" } else { "prefix" }, if p < 16 { "7-15" } else if p < 32 { "16-31" } else { "32+" }, if pad { ", equal lengths" } else { "" }));
+        out.count(&format!("strings: common {} of {} bytes{}", if suffix { "suffix" } else { "prefix" }, if p < 16 { "7-15" } else if p < 32 { "16-31" } else if p < 100 { "32-64" } else { "127+" }, if pad { ", equal lengths" } else { "" }));
     }
     let tr = |s: &str| -> String {
         match stretch {
@@ -1012,8 +1212,15 @@ fn gen_contents(r: &mut Rng, out: &mut Out) -> Vec<Content> {
         }
     };
     let pick3 = |r: &mut Rng, src: &[&'static str]| -> Vec<String> { (0..3).map(|_| tr(*r.pick(src))).collect() };
-    let names = pick3(r, LNAMES);
-    let vals = pick3(r, LVALS);
+    let mut names = pick3(r, LNAMES);
+    let mut vals = pick3(r, LVALS);
+    let wild = r.chance(1, 4);
+    if wild {
+        // label names and values outside the literal pools
+        names[r.below(3)] = tr(&wild_string(r, false));
+        vals[r.below(3)] = tr(&wild_string(r, false));
+        out.count("label names/values: generated strings");
+    }
     let mut knames = [tr(*r.pick(KNAMES)), tr(*r.pick(KNAMES))];
     if r.chance(1, 4) {
         // key names outside the seven literals
@@ -1021,6 +1228,13 @@ fn gen_contents(r: &mut Rng, out: &mut Out) -> Vec<Content> {
         out.count("key name: generated string");
     }
     let mut dn: Vec<String> = DISTINCT.iter().map(|s| tr(s)).collect();
+    if wild {
+        let w = tr(&wild_string(r, false));
+        if !dn.contains(&w) {
+            let at = r.below(dn.len());
+            dn[at] = w;
+        }
+    }
     for i in (1..dn.len()).rev() {
         dn.swap(i, r.below(i + 1));
     }
@@ -1102,7 +1316,33 @@ fn corpus() -> Vec<Vec<Content>> {
     big2.swap(0, 1);
     let mut big3 = big1.clone();
     big3.swap(2, 5);
+    // far more labels than any inline map holds: 257 with pairwise distinct names (reversed / rotated: equal keys), and
+    // 130 over three names (a name-order-preserving shuffle: equal; two same-named labels swapped: different)
+    let d257: Vec<(String, String)> = (0..257).map(|i| (format!("k{:03}", (i * 101) % 257), format!("v{}", i % 5))).collect();
+    let mut d257r = d257.clone();
+    d257r.reverse();
+    let mut d257o = d257.clone();
+    d257o.rotate_left(129);
+    let mut d257m = d257.clone();
+    d257m[200].1 = "other".to_string();
+    let r130: Vec<(String, String)> = (0..130).map(|i| (["a", "b", ""][(i * 7 + i / 3) % 3].to_string(), format!("{}", i % 11))).collect();
+    let mut r130s = r130.clone();
+    r130s.sort_by_key(|(k, _)| match k.as_str() { "b" => 0, "" => 1, _ => 2 });
+    let mut r130x = r130.clone();
+    {
+        let a: Vec<usize> = (0..130).filter(|&i| r130[i].0 == "a").collect();
+        let (x, y) = (a[a.len() - 1], *a.iter().rev().find(|&&i| r130[i].1 != r130[a[a.len() - 1]].1).unwrap());
+        r130x.swap(x, y);
+    }
+    let big = |n: &str, v: &Vec<(String, String)>| -> Content { (n.to_string(), v.clone()) };
+    let long_a = format!("{}a", "p".repeat(300));
+    let long_b = format!("{}b", "p".repeat(300));
     vec![
+        vec![big("n", &d257), big("n", &d257r), big("n", &d257o), big("n", &d257m), big("n", &d257[..256].to_vec())],
+        vec![big("n", &r130), big("n", &r130s), big("n", &r130x), big("n", &r130[..129].to_vec())],
+        // 301-byte strings that differ in the last byte only
+        vec![c(&long_a, &[(&long_a, &long_b), (&long_b, &long_a)]), c(&long_a, &[(&long_b, &long_a), (&long_a, &long_b)]), c(&long_b, &[(&long_a, &long_b), (&long_b, &long_a)]),
+             c(&long_a, &[(&long_a, &long_a), (&long_b, &long_a)]), c(&long_a, &[(&long_a, &long_b), (&long_a, &long_a), (&long_b, &long_a)])],
         // the design-round witness: two labels with the same name, values swapped
         vec![c("n", &[("a", "1"), ("a", "2")]), c("n", &[("a", "2"), ("a", "1")]), c("n", &[("a", "1"), ("a", "1")]), c("n", &[("a", "2"), ("a", "2")])],
         vec![c("n", &[("a", "1"), ("b", "2")]), c("n", &[("b", "2"), ("a", "1")]), c("n", &[("a", "2"), ("b", "1")]), c("n", &[("b", "1"), ("a", "2")])],
